@@ -140,7 +140,8 @@ theorem stmt_correct_fixed_closed {ms : MacroSem} (hms : MsOK ms) {c : Ctx} {env
     ∃ σIL', ExecIL ms eff σIL σIL' ∧ Inv c σC' σIL' :=
   stmt_correct_fixed (exprOK_of_C02 hms) henv hc hcomp hwf (WFHyp_of_static hwfe) hinv hex
 
-/-- **C05 composed with C02, whole behaviour** -/
+/-- **C05 composed with C02, whole behaviour** (final states: `StRel`, which does not relate the immediates, see
+    `prog_correct_fixed`) -/
 theorem prog_correct_fixed_closed {ms : MacroSem} (hms : MsOK ms) {c : Ctx} (hc : c.ok = true)
     {prog : List CStmt} {eff : ILEffect} (hcomp : compileProg Cfg.fixed prog = .ok eff)
     (himms : ∀ l, l ∈ c.imms ↔ l ∈ progImms prog)
@@ -162,7 +163,8 @@ theorem prog_asCode_eq_fixed_closed (prog : List CStmt)
     compileProg Cfg.asCode prog = compileProg Cfg.fixed prog :=
   prog_asCode_eq_fixed prog (exprT2_of_C02 _) h
 
-/-- **T1 + T2 closed**: on the carve-out the lowering AS CODED preserves the C semantics -/
+/-- **T1 + T2 closed**: on the carve-out the lowering AS CODED preserves the C semantics (final states: `StRel`, which
+    does not relate the immediates, see `prog_correct_fixed`) -/
 theorem prog_correct_asCode_closed {ms : MacroSem} (hms : MsOK ms) {c : Ctx} (hc : c.ok = true)
     {prog : List CStmt} {eff : ILEffect}
     (hcarve : CarveSs (CarveE (assignedOfList prog)) { assigned := assignedOfList prog, cfg := Cfg.fixed } prog = true)
